@@ -421,6 +421,7 @@ package kcp
 // transmissions).
 //@ func KCP.flush
 //@   callsite segment.encode requires @C09 [every-emitted-header-carries-the-current-una] arg_seg.una == kcp.rcv_nxt
+//@   callsite segment.encode requires @C04 [advertised-window-never-exceeds-the-free-receive-space] arg_seg.wnd <= max(0, kcp.rcv_wnd - kcp.rcv_queue.rlen())
 //@   ensures @C18 [unsent-segments-carry-no-timer] flushType != 2 && old(kcp.wfU()) ==> kcp.wfU()
 //@   ensures @C18 [no-fast-retransmission-while-fast-resend-is-off] kcp.fastresend <= 0 ==> fastRetransSegs == 0
 //@   loop 2 invariant @C18 old(kcp.wfU()) ==> kcp.wfU()
@@ -439,11 +440,13 @@ package kcp
 //@   ensures @C04 [effective-window] cwnd <= kcp.snd_wnd && cwnd <= old(kcp.rmt_wnd) && (kcp.nocwnd == 0 ==> cwnd <= old(kcp.cwnd))
 //@   loop 1 invariant suffixOf(ptr, buffer) && len(buffer) - len(ptr) <= kcp.mtu
 //@   loop 1 invariant @C09 seg.conv == kcp.conv && seg.una == kcp.rcv_nxt && seg.cmd == 82 && len(seg.data) == 0 && seg.frg == 0
+//@   loop 1 invariant @C04 seg.wnd <= max(0, kcp.rcv_wnd - kcp.rcv_queue.rlen())
 //@   loop 2 invariant kcp.wfR() && kcp.wfS() && kcp.wfW() && newSegsCount >= 0
 //@   loop 2 invariant kcp.snd_queue.sameOrFresh() && kcp.snd_buf.sameOrFresh()
 //@   loop 2 invariant @C04 newSegsCount > 0 ==> kcp.snd_buf.rlen() <= cwnd
 //@   loop 3 invariant suffixOf(ptr, buffer) && len(buffer) - len(ptr) <= kcp.mtu
 //@   loop 3 invariant @C09 seg.una == kcp.rcv_nxt
+//@   loop 3 invariant @C04 seg.wnd <= max(0, kcp.rcv_wnd - kcp.rcv_queue.rlen())
 //@   loop 3 invariant @C18 [no-fast-retransmission-while-fast-resend-is-off] kcp.fastresend <= 0 ==> fastRetransSegs == 0
 //@   loop 3 invariant kcp.snd_buf.clean() && kcp.wfSb() && kcp.wfSn() && 0 < nextUpdate && nextUpdate <= kcp.interval
 //
